@@ -1,8 +1,35 @@
 """C16 - edit-batch property: generators in harness/editrun.py, oracle + region classification in harness/props/_judges.py,
 model correspondence in harness/editrun.py (Engine.apply_edits extracted from Coq), theorems in coq/Props/C16.v"""
 from harness.props import _edits, _judges as J
+from harness import absdoc as A, docgen, docrun, editrun as E
+
+def targeted(rng, tier):
+    """documents whose plain runs carry explicit toggle-off / valueless toggles (<w:b w:val="0"/>, <w:i/>) x edits whose new text
+    has bold / italic spans next to them"""
+    out = []
+    docrun.impl_init()
+    for k in range(40 if tier == 'quick' else 800):
+        d = docgen.gen_doc(rng, 'plain')
+        def walk(blocks):
+            for b in blocks:
+                if b['t'] == 'p':
+                    for n in b['nodes']:
+                        for x in ([n] if n[0] == 'run' else [y for y in n[3] if y[0] == 'run'] if n[0] in ('ins', 'del') else []):
+                            if not x[2] and rng.random() < .6: x[2] = [rng.choice([[1, 0], [2, 0], [1, 1], [2, 1], [1, 3], [2, 4]])] + ([[100, 0]] if rng.random() < .3 else [])
+                else:
+                    for r in b['rows']:
+                        for c in r: walk(c['blocks'])
+        for st in d['stories']: walk(st['blocks'])
+        b = A.build(d); din = A.read(b, table=list(d['rpr_table']))
+        acc = [a for a in E.para_texts(din, 'acc') if a.strip()]
+        if not acc: continue
+        t = E.pick_target(rng, rng.choice(acc))
+        if not t: continue
+        new = rng.choice(['{t} **bold**', '**b1** {t}', '{t} _it_ and **bo**', '**_both_** {t}', 'x **y** z', '_i1_ {t} _i2_']).replace('{t}', t)
+        out.append((d, [(t, new, None, None)]))
+    return out
 PID = 'C16'
 def run(tier, seed):
-    return _edits.run_property(PID, tier, seed, ['Props/C16.v'], ('exact',), J.judge_C16, 'single edits at every position relative to formatting boundaries with new text with none / one / several bold-italic spans and literal punctuation')
+    return _edits.run_property(PID, tier, seed, ['Props/C16.v'], ('exact', 'exact', 'blocks'), J.judge_C16, 'single edits at every position relative to formatting boundaries with new text with none / one / several bold-italic spans and literal punctuation; multi-line and heading new text (new paragraphs: shared formatting per line, heading styles, spans); targeted: runs with explicit toggle values x new text with spans next to them', targeted=targeted)
 def replay(path):
     return _edits.replay_case(path, J.judge_C16, PID)
